@@ -15,6 +15,7 @@ log of the simulated slave after the reconnect (exactly one request per pending 
 refresh, nothing else), nothing pending afterwards, mirror equal to the device at the sync point.
 """
 import copy
+import hashlib
 import json
 import re
 
@@ -46,12 +47,6 @@ ASSUMPTIONS = [
     'remote value once sent)',
     'during the reconnect the device stays reachable (a provisioning request that fails is not retried by the code: the '
     'pending mark is cleared all the same)',
-    'the remote value queue of a port is empty when its value is written offline (NOT guaranteed by the code: switching '
-    'listening / polling off makes the slave offline at once; reachable through the API, witness '
-    'corpus/C13/value-written-offline-with-queued-remote-values.json.proposed, repair fixes/C13-offline-write-supersedes-queued-values.diff; '
-    'generated scripts keep to the assumption until the repair is committed)',
-    'the device attributes uptime / date are not edited offline on a polled slave (defect: '
-    'corpus/C13/pending-date-overwritten-by-poll-probe.json.proposed, fixes/C13-pending-date-kept-on-device-poll.diff)',
     '"before the master refreshes its mirror": before GET /ports (and, for a listening slave, GET /device); a polled slave is '
     'probed with GET /device first and that answer passes through the guarded _handle_device_update',
 ]
@@ -94,7 +89,12 @@ def rand_edit(rng, st, kinds=('mv', 'ma', 'md')):
                     'device_expression': lambda: rng.choice(['', 'ADD(2, 2)', 'SUB(5, 1)']),
                     'unit': lambda: rng.choice(['W', 'A', 'uu']), 'gain': lambda: rng.randint(0, 100)}[n]()
         return ['ma', pid, d]
-    return ['md', {'display_name': rng.choice(['User Dev', 'UD %d' % rng.randint(0, 9)])}]
+    r = rng.random()
+    if r < 0.6:
+        return ['md', {'display_name': rng.choice(['User Dev', 'UD %d' % rng.randint(0, 9)])}]
+    # passwords are write-only on the slave and masked ('set' / '') wherever the master shows its cache
+    n = 'admin_password' if r < 0.8 else rng.choice(['normal_password', 'viewonly_password'])
+    return ['md', {n: rng.choice(['s3cret', 'pw%d' % rng.randint(0, 99), 'set!'])}]
 
 
 def gen_e2e(rng):
@@ -237,7 +237,6 @@ def gen_micro(rng):
             else:
                 e = rand_edit(rng, st)
                 if e[0] == 'mv':
-                    steps += [['tick'], ['drain']]      # the remote value queue is empty when a value is written offline
                     steps.append(['write_value', e[1], e[2]])
                 elif e[0] == 'ma':
                     for n, v in e[2].items():
@@ -512,7 +511,12 @@ def pending_problems(e):
         if any(n not in got for n in a[0]):
             out.append(('pending-not-reported', {'edit': [k] + a, 'reported': got}))
         attrs = e['devices'][0].get('attrs', {}) if isinstance(e['devices'], list) and e['devices'] else {}
+        per = (e.get('persisted') or {}).get('slave', {})
         for n, v in a[0].items():
+            if n not in per.get('provisioning_attrs', []) or not same((per.get('attrs') or {}).get(n), v):
+                out.append(('pending-not-persisted', {'edit': [k] + a, 'persisted': per}))
+            if n.endswith('_password'):          # shown masked, kept in clear text (persisted record above)
+                v = 'set' if v else ''
             if not same(attrs.get(n), v):
                 out.append(('pending-not-kept', {'edit': [k] + a, 'shown': attrs.get(n)}))
     return out
@@ -546,6 +550,13 @@ def e2e_problems(job, res):
         sp = still_pending(ep['sync_obs'])
         if sp:
             out.append({'kind': 'still-pending', 'detail': sp, 'sync': ep['sync']})
+        for it in list(ep['items']) + list(ep['window']):
+            if it[0] == 'dev' and it[1] == 'admin_password':     # the master signs its requests with the new password from now on
+                md = ep['sync_obs'].get('master_devices')
+                got = md[0].get('admin_password_hash') if isinstance(md, list) and md else None
+                if got != hashlib.sha256(it[2].encode()).hexdigest():
+                    out.append({'kind': 'rekey', 'detail': {'item': list(it), 'admin_password_hash_of_master': got},
+                                'sync': ep['sync'], 'item': 'device-attr'})
         vp = c12.view_problems('dev1', ep['sync_obs']['master_ports'], ep['sync_obs']['slave_ports'])
         if vp:
             out.append({'kind': 'view', 'detail': vp, 'sync': ep['sync']})
@@ -645,6 +656,7 @@ WHAT = {
     'pending-not-persisted': 'the pending mark of an offline edit is not persisted',
     'still-pending': 'something is still reported as pending after the reconnect',
     'view': 'after the reconnect the master\'s ports differ from the device',
+    'rekey': 'after pushing a new admin password the master does not sign its requests to the slave with it',
 }
 
 
